@@ -327,17 +327,13 @@ func (c *Ctx) c03Replies(m *smtpModel, t *smtpTS) {
 // c01Atomic: Deliver unreachable from the DATA read's error edge (C01/D2 = C03/D4).
 func (c *Ctx) c01Atomic(rule string, m *smtpModel) {
 	r, p := c.R, c.P
-	for _, site := range m.deliverSites {
-		F := site.Parent()
-		cons := "deliver-after-data@" + shortFn(F)
-		var gcall *ssa.Call
-		eng.EachInstr(F, func(in ssa.Instruction) {
-			if call, ok := in.(*ssa.Call); ok && eng.StaticCallee(call.Common()) == m.dataRead {
-				gcall = call
-			}
-		})
-		if gcall == nil {
-			r.Bad(rule, cons, p.InstrPos(site), "Deliver is called in a function that does not itself read the DATA block: the guard between a failed read and delivery cannot be established")
+	for _, orig := range m.deliverSites {
+		cons := "deliver-after-data@" + shortFn(orig.Parent())
+		// a delivery extracted into a helper is judged at the helper's call in the function
+		// that reads the DATA block
+		site, gcall, ok := m.liftToDataReader(p, orig)
+		if !ok {
+			r.Bad(rule, cons, p.InstrPos(orig), "Deliver is called in a function that neither reads the DATA block nor is called (through a single call chain) from the function that does: the guard between a failed read and delivery cannot be established")
 			continue
 		}
 		errV := extractOf(gcall, 1)
